@@ -25,6 +25,7 @@ func init() {
 	execs["c13.ubx"] = execC13UBX
 	execs["c13.walk"] = execC13Walk
 	execs["c13.wait"] = execC13Wait
+	execs["c13.add"] = execC13Add
 	execs["c13.repro"] = execC13Repro
 	gens["C13"] = genC13
 }
@@ -343,6 +344,7 @@ func genC13UB(c *Ctx, f *c13Fails) {
 func genC13(c *Ctx) {
 	f := &c13Fails{c: c, seen: map[string]int{}}
 	genC13UB(c, f)
+	genC13Add(c, f)
 	genC13Repro(c, f)
 	genC13Walks(c, f)
 	genC13Waits(c, f)
@@ -350,3 +352,179 @@ func genC13(c *Ctx) {
 }
 
 var _ = prng.New
+
+// ---- pools built through the real addConnection, in every arrival order ----
+
+func hostOf(id int) string { return fmt.Sprintf("host-%02d", id) }
+
+// c13.add: (strategy (arrival id ...) ((alive seqno rtt) per id)) ->
+// ((pool order as listed by Status()) bestConn after initialisation, choice after updateBest), as ids
+func execC13Add(in sx.V) sx.V {
+	strat := in.List[0].I()
+	obs := parseMcs(in.List[2])
+	p := pool.New(stratNames[strat])
+	for _, a := range in.List[1].List {
+		id := a.I()
+		rc := p.VerifAddConnection(id, hostOf(id))
+		if id < len(obs) {
+			rc.SetMasterHead(obs[id].seqno)
+		}
+		for {
+			if _, ok := p.VerifTakeUpdate(); !ok {
+				break
+			}
+		}
+	}
+	idOfHost := map[string]int{}
+	for id := 0; id < 64; id++ {
+		idOfHost[hostOf(id)] = id
+	}
+	var order []sx.V
+	for _, st := range p.Status().Connections {
+		order = append(order, sx.Nat(idOfHost[st.ServerHost]))
+	}
+	idSx := func(c pool.VerifConn) sx.V {
+		if c == nil {
+			return sx.A("none")
+		}
+		return sx.Nat(c.ID())
+	}
+	best0 := idSx(p.VerifBest())
+	p.VerifWrapConns(func(c pool.VerifConn) pool.VerifConn {
+		w := &wconn{inner: c, idx: c.ID()}
+		if c.ID() < len(obs) {
+			w.alive.Store(obs[c.ID()].alive)
+			w.rtt.Store(obs[c.ID()].rtt)
+		}
+		return w
+	})
+	return sx.L(sx.L(order...), best0, idSx(p.VerifUpdateBest()))
+}
+
+func permutations(xs []int) [][]int {
+	if len(xs) <= 1 {
+		return [][]int{append([]int{}, xs...)}
+	}
+	var out [][]int
+	for i := range xs {
+		rest := append(append([]int{}, xs[:i]...), xs[i+1:]...)
+		for _, p := range permutations(rest) {
+			out = append(out, append([]int{xs[i]}, p...))
+		}
+	}
+	return out
+}
+
+func genC13Add(c *Ctx, f *c13Fails) {
+	r := c.R
+	grid := gridConns()
+	emit := func(strat int, arrival []int, obs []mc) {
+		as := make([]sx.V, len(arrival))
+		for i, a := range arrival {
+			as[i] = sx.Nat(a)
+		}
+		in := sx.L(sx.Nat(strat), sx.L(as...), mcsSx(obs))
+		inOrder := "ordered"
+		for i := 1; i < len(arrival); i++ {
+			if arrival[i] < arrival[i-1] {
+				inOrder = "shuffled"
+			}
+		}
+		res := c.Emit("c13.add", in, fmt.Sprintf("add|n%d|s%d|%s", len(arrival), strat, inOrder))
+		// oracle: the pool is in configuration order; the first arrival is bestConn; the choice is
+		// the property's choice on the configuration-ordered pool
+		ids := append([]int{}, arrival...)
+		sortInts(ids)
+		okOrder := len(res.List) == 3 && len(res.List[0].List) == len(ids)
+		for i := 0; okOrder && i < len(ids); i++ {
+			okOrder = res.List[0].List[i].K == sx.KN && res.List[0].List[i].I() == ids[i]
+		}
+		if !okOrder {
+			f.fail("c13.add", in, "pool-not-in-configuration-order",
+				fmt.Sprintf("after addConnection in arrival order %v Status() lists the connections as %s", arrival, res.List[0].String()))
+			if len(res.List) != 3 {
+				return
+			}
+		}
+		cs := make([]mc, len(ids))
+		prev := -1
+		for i, id := range ids {
+			cs[i] = obs[id]
+			if id == arrival[0] {
+				prev = i
+			}
+		}
+		want := specUpdateBest(strat, cs, prev)
+		got := -2
+		if res.List[2].K == sx.KN {
+			for i, id := range ids {
+				if id == res.List[2].I() {
+					got = i
+				}
+			}
+		}
+		if got != want {
+			f.fail("c13.add", in, "updatebest-arrival-order",
+				fmt.Sprintf("pool registered in arrival order %v: updateBest chose %s, the property demands the connection at configuration position %d of %v", arrival, res.List[2].String(), want, ids))
+		}
+	}
+	all := []int{0, 1, 2, 3}
+	k := c.Scale(3, 40)
+	for mask := 1; mask < 16; mask++ {
+		var sub []int
+		for _, id := range all {
+			if mask&(1<<id) != 0 {
+				sub = append(sub, id)
+			}
+		}
+		for _, arrival := range permutations(sub) {
+			for strat := 0; strat < 2; strat++ {
+				// everybody alive and at the newest head
+				obs := []mc{{true, 100, 4}, {true, 100, 3}, {true, 100, 2}, {true, 100, 1}}
+				emit(strat, arrival, obs)
+				for j := 0; j < k; j++ {
+					obs := make([]mc, 4)
+					for i := range obs {
+						obs[i] = grid[r.Intn(len(grid))]
+						if r.Chance(60) {
+							obs[i].alive = true
+						}
+					}
+					emit(strat, arrival, obs)
+				}
+			}
+		}
+	}
+	// larger pools, sparse ids
+	n := c.Scale(60, 1500)
+	for i := 0; i < n; i++ {
+		m := 2 + r.Intn(7)
+		arrival := randPerm(r, 12)[:m]
+		obs := make([]mc, 12)
+		base := uint32(r.Intn(6))
+		for j := range obs {
+			obs[j] = mc{alive: r.Chance(70), seqno: base + uint32(r.Intn(3)), rtt: int64(1 + r.Intn(4))}
+		}
+		emit(r.Intn(3), arrival, obs)
+	}
+}
+
+func sortInts(xs []int) {
+	for i := 1; i < len(xs); i++ {
+		for j := i; j > 0 && xs[j] < xs[j-1]; j-- {
+			xs[j], xs[j-1] = xs[j-1], xs[j]
+		}
+	}
+}
+
+func randPerm(r *prng.R, n int) []int {
+	xs := make([]int, n)
+	for i := range xs {
+		xs[i] = i
+	}
+	for i := n - 1; i > 0; i-- {
+		j := r.Intn(i + 1)
+		xs[i], xs[j] = xs[j], xs[i]
+	}
+	return xs
+}
